@@ -33,7 +33,35 @@ def opt(v, lf=None):
     return ("?", v.expr())
 
 
+def rule_height_pairing(ctx):
+    """C06.0 — independent of the loop structure: whenever `compare` orders two log heights, the remote height is the
+    one stored under the *same log id* in the remote map, i.e. it comes from `remote_logs.get(log_id)` — never from
+    walking the remote map's values in parallel (`zip`, `values().next()`), which pairs heights of different logs as
+    soon as the two sides know different log ids."""
+    from mir import origins, deep_calls
+    b = ctx.body(COMPARE)
+    cmps = [c for c in sem_calls(b) if c.name.rsplit("::", 1)[-1] in ("lt", "le", "gt", "ge", "cmp", "partial_cmp")
+            and c.name.startswith("core::cmp::")]
+    n = 0
+    for c in cmps:
+        sides = [deep_calls(b, a) for a in c.args[:2]]
+        # a height comparison: both sides are map values (one from iterating the local logs)
+        if not any(NEXT in s_ for s_ in sides):
+            continue
+        n += 1
+        positional = [sorted(x.rsplit("::", 1)[-1] for x in s_ if x.rsplit("::", 1)[-1] in ("zip", "values", "nth", "skip"))
+                      for s_ in sides]
+        keyed = any(any(x.endswith("BTreeMap::get") or x.endswith("HashMap::get") for x in s_) for s_ in sides)
+        ctx.ob("C06.0", "ordered heights belong to the same log id", keyed and not any(positional),
+               "compare() orders two heights of which %s: heights of different logs are compared when the two sides know "
+               "different log ids of an author" % ("none is looked up by log id in the remote map" if not keyed else
+                                                     "one is taken positionally (%s)" % [p for p in positional if p]),
+               site=c.loc(), key="C06.0:height-pairing")
+    ctx.floor("C06.0", "height comparisons in compare()", n, 1)
+
+
 def rule_compare(ctx):
+    ctx.guarded(lambda: rule_height_pairing(ctx), "C06.0")
     b = ctx.body(COMPARE)
     loops = [c for c in sem_calls(b) if c.is_(NEXT) and "desugar:ForLoop" in (c.term.get("mac") or [])]
     if not ctx.ob("C06.1", "two nested for-loops", len(loops) == 2,
@@ -217,7 +245,7 @@ def run(ctx):
 
 MANIFEST = {
     "category": "proof",
-    "technique": "exhaustive decision tables of both loop bodies by forking abstract interpretation of the MIR (order domain), loop-carried variables as symbols",
+    "technique": "exhaustive decision tables of both loop bodies by forking abstract interpretation of the MIR (order domain), loop-carried variables as symbols; height-pairing provenance rule (remote height looked up by log id)",
     "text": "compare only ever compares heights, so each loop body's behaviour over all values is a finite table enumerated from the MIR and checked row by row against the specification of the diff; plus provenance of Cursor::compare's arguments. Proof of the table clause; map iteration itself is std behaviour.",
     "note": "Trusted: rustc MIR, driver, abstract interpreter; BTreeMap get/insert/entry/iter semantics as axioms.",
 }
